@@ -16,6 +16,9 @@ use rt::{Fnv, Rng, J};
 use crate::world::*;
 
 pub const IMAX: usize = isize::MAX as usize;
+/// in-contract requests above this are never generated (a buffer of that size proves nothing
+/// more and 16 workers doubling it would exhaust the sandbox); replayed ones are skipped
+pub const BIG: usize = 8 << 20;
 
 // ------------------------------------------------------------------ configuration
 
@@ -440,6 +443,8 @@ impl<'a> Gen<'a> {
                     ])
                 } else {
                     let s = blk.map(|b| b.size).unwrap_or(v.cap);
+                    // long histories must not double a buffer at every step
+                    let s = if s > (1 << 20) { pick_size(rng, cfg) } else { s };
                     match rng.below(12) {
                         0 => 0,
                         1 => 1,
@@ -1412,7 +1417,7 @@ pub fn exec(w: &mut World, op: &J) -> StepOut {
                 Exp::Ok
             } else if n > IMAX {
                 Exp::Panic
-            } else if n - v0.len > alloc::MAX_REQ / 2 {
+            } else if n > BIG {
                 // never generated; a replayed/shrunk value may land here
                 w.slots.insert(h, s);
                 return skip;
@@ -1437,7 +1442,7 @@ pub fn exec(w: &mut World, op: &J) -> StepOut {
             let v0 = s.view();
             let spare = v0.cap - v0.len;
             let unrepresentable = v0.len.checked_add(n).map(|t| t > IMAX).unwrap_or(true);
-            if !unrepresentable && n > spare && n > alloc::MAX_REQ / 2 {
+            if !unrepresentable && n > spare && v0.len.saturating_add(n) > BIG {
                 w.slots.insert(h, s);
                 return skip;
             }
@@ -1550,7 +1555,7 @@ pub fn exec(w: &mut World, op: &J) -> StepOut {
                 "put_bytes" => {
                     if v0.len.checked_add(n).map(|t| t > IMAX).unwrap_or(true) {
                         exp = Exp::Panic;
-                    } else if n > alloc::MAX_REQ / 2 {
+                    } else if v0.len.saturating_add(n) > BIG {
                         return skip;
                     } else {
                         app = vec![op.us("val") as u8; n];
